@@ -271,6 +271,7 @@ func (m *Muxer) Send(msg *Segment) error {
 		return errors.New("shutting down")
 	default:
 	}
+	m.verifPt("Send.beforeLock")
 	// We use a mutex to make sure only one protocol can send at a time
 	m.sendMutex.Lock()
 	defer m.sendMutex.Unlock()
@@ -426,6 +427,7 @@ func (m *Muxer) readLoop() {
 			return
 		}
 
+		m.verifPt("readLoop.afterLookup")
 		recvChan.mu.Lock()
 		if recvChan.ch == nil {
 			recvChan.mu.Unlock()
